@@ -299,6 +299,13 @@ def correspond(ctx):
                     continue
                 dis.append(Disagreement('c01.loop', f'{"2d" if two_d else "1d"}:{name}:tol_history', detail,
                                         dict(meta, method=name, two_d=two_d, kind='replay'), True))
+    # object-history fuzzer (hist.py): a call on a long-lived fitter must return the baseline in the caller's ordering, shape and with the
+    # per-point parameters of the call — decided against the same call on a fresh fitter
+    from . import hist
+    for spec, f in hist.campaign(ctx, ctx.np_rng(), 'fresh', 50 if ctx.thorough else 20, 16 if ctx.thorough else 6):
+        dis.append(Disagreement('c01.fuzz', f'fuzz:{spec["steps"][-1]["method"]}',
+                                f'history on one fitter (x {"not given" if spec["mode"] == "none" else "given"}): {hist.describe(spec)[:700]} — call {f[0] + 1}: {f[2]}',
+                                {'kind': 'fuzz', 'spec': spec}, True))
     return dis
 
 
@@ -318,6 +325,10 @@ def variant_data(two_d, data_seed, n):
 def replay(ctx, data):
     from pybaselines import Baseline, Baseline2D
     r = data['replay']
+    if r.get('kind') == 'fuzz':
+        from . import hist
+        f = [x for x in hist.run(r['spec'], want=('fresh',)) if x[1] == 'fresh']
+        return f'call {f[0][0] + 1}: {f[0][2]}' if f else None
     if 'data_seed' in r:
         x, z, Y = variant_data(r['two_d'], r['data_seed'], r.get('n', 25))
         if r['method'] == 'collab_pls':
